@@ -1,0 +1,24 @@
+//go:build verif
+
+package page
+
+// Contracts for the verification framework in /verif (comment-only; see /verif/DESIGN.md).
+
+//@ func [C11,C18] min
+//@   ensures [C11] result == (a < b ? a : b)
+//@   modifies nothing
+
+//@ func [C11,C18] paginationResult
+//@   requires 0 <= page && page <= 99999 && 1 <= size && size <= 9999 && 0 <= len
+//@   ensures [C11] result0 == min(page*size, len)
+//@   ensures [C11] result1 == min(result0 + size, len)
+//@   ensures [C11] result2 == size
+//@   modifies nothing
+
+//@ func [C11,C18] ParsePage
+//@   ensures [C11] 0 <= result && result <= 99999
+//@   modifies nothing
+
+//@ func [C11,C18] ParseSize
+//@   ensures [C11] 1 <= result && result <= 9999
+//@   modifies nothing
